@@ -55,10 +55,84 @@ pub fn run(sc: &Value) -> Value {
         }
     }));
     let mut out = sc.as_object().unwrap().clone();
+    // two-circle and sweep gradients: the gradient parameter t of every pixel centre is a
+    // transcendental function of the geometry; it is supplied to the specification in 1/65536
+    // (abstraction function, computed here in f64 from the property's own definition)
+    let kind = sc["src"]["kind"].as_str().unwrap_or("");
+    if kind == "sweep" || kind == "two_circle" {
+        if let Some(tm) = tmap(sc, w, h, den as f64, kind) {
+            out.insert("tmap".into(), tm);
+        }
+    }
     out.insert("outcome".into(), json!(if r.is_ok() { "ok" } else { "panic" }));
     out.insert("pix".into(), pix(dt.get_data()));
     out.insert("ctm_after_same".into(), json!(*dt.get_transform() == ctm));
     Value::Object(out)
+}
+
+fn tmap(sc: &Value, w: i32, h: i32, den: f64, kind: &str) -> Option<Value> {
+    let c = &sc["ctm"];
+    let md = num(&c["mden"]) as f64;
+    let m: Vec<f64> = (0..6).map(|i| num(&c["m"][i]) as f64 / md).collect();
+    let det = m[0] * m[3] - m[1] * m[2];
+    if det == 0.0 {
+        return None;
+    }
+    let src = &sc["src"];
+    let g = |v: &Value| num(v) as f64 / den;
+    let mut out = Vec::new();
+    for py in 0..h {
+        for px in 0..w {
+            // user-space position of the pixel centre: inverse of (x, y) -> (x m0 + y m2 + m4, x m1 + y m3 + m5)
+            let dx = px as f64 + 0.5 - m[4];
+            let dy = py as f64 + 0.5 - m[5];
+            let ux = (dx * m[3] - dy * m[2]) / det;
+            let uy = (dy * m[0] - dx * m[1]) / det;
+            let t = if kind == "sweep" {
+                let cx = g(&src["center"][0]);
+                let cy = g(&src["center"][1]);
+                if (uy - cy).abs() < 1e-9 && (ux - cx).abs() < 1e-9 {
+                    // the angle is undefined at the centre itself
+                    out.push(json!([0, -1]));
+                    continue;
+                }
+                let mut a = (uy - cy).atan2(ux - cx).to_degrees();
+                if a < 0.0 {
+                    a += 360.0;
+                }
+                let s = num(&src["start_angle"]) as f64;
+                let e = num(&src["end_angle"]) as f64;
+                (a - s) / (e - s)
+            } else {
+                let (c1x, c1y, r1) = (g(&src["c1"][0]), g(&src["c1"][1]), g(&src["r1"]));
+                let (c2x, c2y, r2) = (g(&src["c2"][0]), g(&src["c2"][1]), g(&src["r2"]));
+                let (cdx, cdy, dr) = (c2x - c1x, c2y - c1y, r2 - r1);
+                let (pdx, pdy) = (ux - c1x, uy - c1y);
+                let a = cdx * cdx + cdy * cdy - dr * dr;
+                let b = pdx * cdx + pdy * cdy + r1 * dr;
+                let cc = pdx * pdx + pdy * pdy - r1 * r1;
+                if a == 0.0 {
+                    cc / (2.0 * b)
+                } else {
+                    let disc = b * b - a * cc;
+                    if disc < 0.0 {
+                        f64::NAN
+                    } else {
+                        let t1 = (b + disc.sqrt()) / a;
+                        let t2 = (b - disc.sqrt()) / a;
+                        t1.max(t2)
+                    }
+                }
+            };
+            if !t.is_finite() || t.abs() > 20000.0 {
+                out.push(json!([0, -1]));
+            } else {
+                let v = t * 65536.0;
+                out.push(json!([v.floor() as i64 - 1, v.ceil() as i64 + 1]));
+            }
+        }
+    }
+    Some(Value::Array(out))
 }
 
 pub fn drive(_fam: &str, _seed: u64, _n: usize) -> Vec<Value> {
